@@ -426,6 +426,32 @@ func (c *Ctx) callBySpec(spec *FuncSpec, fn *types.Func, x *ast.CallExpr, st *St
 	for _, r := range spec.Requires {
 		c.oblRequires(st, spec, r, env, x.Pos())
 	}
+	// termination of (mutual) recursion: the callee's measure is smaller than the caller's, lexicographically (E, rank)
+	if c.spec != nil && c.spec.Decreases != nil && spec.Decreases != nil && c.entry != nil {
+		callerEnv := &SpecEnv{c: c, st: c.entry, entry: c.entry, binds: c.entryBinds}
+		m0 := c.specVal(c.spec.Decreases, callerEnv).(Scalar)
+		m1 := c.specVal(spec.Decreases, env).(Scalar)
+		lt := func(a, b string) string {
+			if m0.S.K == "bv" {
+				return "(bvslt " + a + " " + b + ")"
+			}
+			return "(< " + a + " " + b + ")"
+		}
+		le := func(a, b string) string {
+			if m0.S.K == "bv" {
+				return "(bvsle " + a + " " + b + ")"
+			}
+			return "(<= " + a + " " + b + ")"
+		}
+		rankLess := "false"
+		if spec.Rank < c.spec.Rank {
+			rankLess = "true"
+		}
+		goal := and(le(c.zero(m0.S), m0.T), or(lt(m1.T, m0.T), and("(= "+m1.T+" "+m0.T+")", rankLess)))
+		c.safeN["decreases@call"]++
+		c.addObl(Obl{Name: fmt.Sprintf("%s/decreases@call#%d[%s]", c.unit, c.safeN["decreases@call"], spec.Name), Kind: "decreases@call", Guard: st.guard, Goal: goal, Pos: c.pos(x.Pos()),
+			Text: "the callee's termination measure (" + spec.Decreases.Text + ", rank " + fmt.Sprint(spec.Rank) + ") is lexicographically smaller than the caller's (" + c.spec.Decreases.Text + ", rank " + fmt.Sprint(c.spec.Rank) + "), which is non-negative"})
+	}
 	for _, pw := range spec.PanicsWhen {
 		cond := c.specBool(pw, env)
 		// the callee panics exactly when cond holds: a panic path of the caller
@@ -757,6 +783,54 @@ func init() {
 			}
 			return []Val{c.symbolic(st, "sprintf", types.Typ[types.String])}
 		},
+	}
+	externModels["pgregory.net/rapid.Generator.Draw"] = func(c *Ctx, x *ast.CallExpr, st *State) []Val {
+		// trusted contract of rapid: a value drawn from XRange(lo, hi) lies in [lo, hi]; other generators are unconstrained
+		t := c.info.TypeOf(x)
+		v := c.symbolic(st, "draw", t)
+		sel, _ := x.Fun.(*ast.SelectorExpr)
+		if sel != nil {
+			if gen, ok := sel.X.(*ast.CallExpr); ok {
+				if gs, ok := gen.Fun.(*ast.SelectorExpr); ok && strings.HasSuffix(gs.Sel.Name, "Range") && len(gen.Args) == 2 {
+					lo, ok1 := c.eval(gen.Args[0], st).(Scalar)
+					hi, ok2 := c.eval(gen.Args[1], st).(Scalar)
+					if sv, ok := v.(Scalar); ok && ok1 && ok2 {
+						le := func(a, b Scalar) string { return c.binop(token.LEQ, a, b, st, x.Pos()).(Scalar).T }
+						lo, hi = c.convertSort(lo, sv.S), c.convertSort(hi, sv.S)
+						save := c.noDef
+						c.noDef = true // no auxiliary definitions: the assumption must mention the drawn value directly (slicing)
+						fact := implies(le(lo, hi), and(le(lo, sv), le(sv, hi)))
+						c.noDef = save
+						c.assume(fact)
+					}
+				}
+			}
+		}
+		for _, a := range x.Args {
+			c.evalForEffects(a, st)
+		}
+		return []Val{v}
+	}
+	externModels["gotest.tools/v3/assert.Assert"] = func(c *Ctx, x *ast.CallExpr, st *State) []Val {
+		// a failed assertion aborts the test run: execution continues only when the condition holds
+		if len(x.Args) >= 2 {
+			if cond, ok := c.eval(x.Args[1], st).(Scalar); ok && cond.S.K == "bool" {
+				st.guard = c.defRaw("g", "Bool", and(st.guard, cond.T))
+			}
+		}
+		return nil
+	}
+	externModels["gotest.tools/v3/assert.NilError"] = func(c *Ctx, x *ast.CallExpr, st *State) []Val {
+		if len(x.Args) >= 2 {
+			if e, ok := c.eval(x.Args[1], st).(ErrV); ok {
+				st.guard = c.defRaw("g", "Bool", and(st.guard, "(= "+e.T+" 0)"))
+			}
+		}
+		return nil
+	}
+	externModels["pgregory.net/rapid.T.Fatalf"] = func(c *Ctx, x *ast.CallExpr, st *State) []Val {
+		st.guard = "false" // aborts the test
+		return nil
 	}
 	le := func(w int, put bool) externModel {
 		return func(c *Ctx, x *ast.CallExpr, st *State) []Val {
